@@ -32,7 +32,7 @@ from .corpus import CORPUS
 PROP = "C14"
 FEATURE_SETS = ("full",)
 GRAMMARS = ["g1", "c1", "p1", "hd", "c2", "f1", "f2"]
-TYPED = ["", "-", "--", "--a", "--al", "--be", "--n", "--zz", "-a", "-b", "-n", "a", "ad", "r", "m", "c", "zz", "--st", "--beta=", "-b="]
+TYPED = ["", "-", "--", "--a", "--al", "--be", "--n", "--zz", "-a", "-b", "-n", "a", "ad", "ax", "r", "m", "c", "zz", "--st", "--beta=", "-b="]
 
 
 def typed_word(ex, text):
@@ -258,6 +258,8 @@ def run_job(job, build):
                         continue
                     if id(f) in given:
                         continue
+                    if preferred(f) == typed and text.strip() == typed:
+                        continue  # the whole name is typed already: the single candidate is the typed word itself
                     if matches_typed(f, typed) and preferred(f) not in [c[0] for c in cands]:
                         problems.append("visible item %s extends %r and is not on the line, but is not offered" % (preferred(f), typed))
             return problems
@@ -311,6 +313,29 @@ def run_job(job, build):
     return out
 
 
+def typed_words(g, tier):
+    """the fixed list plus words derived from the grammar's own names: short prefixes of every command name
+    and alias, each of them followed by a letter that continues no name, prefixes of long names, exact shorts"""
+    out = list(TYPED)
+
+    def add(w):
+        if w not in out:
+            out.append(w)
+    for nm in g.cmd_names:
+        for k in (1, 2):
+            if len(nm) >= k:
+                add(nm[:k])
+                add(nm[:k] + "q")
+        add(nm)
+    for l in g.all_longs[: (3 if tier == "quick" else 8)]:
+        add("--" + l[:1])
+        add("--" + l[:2] + "q")
+        add("--" + l)
+    for c in g.all_shorts[: (3 if tier == "quick" else 8)]:
+        add("-" + chr(c))
+    return out
+
+
 def make_jobs(tier, seed, build):
     jobs = []
     nmax = 2 if tier == "quick" else 3
@@ -319,7 +344,7 @@ def make_jobs(tier, seed, build):
         for shape in tok.all_shapes_by_words(nmax, g.decl, full_upto=2):
             if "dd" in shape:
                 continue
-            for typed in TYPED:
+            for typed in typed_words(g, tier):
                 jobs.append({"id": "%s:%s:%s" % (gname, ",".join(shape), typed), "grammar": gname, "shape": shape, "typed": typed})
     return jobs
 
@@ -362,7 +387,7 @@ def finish(results, jobs, build, out, tier, seed, wall):
         "queries": {"total": st["queries"], "sat": st["sat"], "unsat": st["unsat"], "unknown": st["unknown"]},
         "solver_time_s": st["solver_s"],
         "outcome_classes": fw.merge_counts(results, "classes"),
-        "bounds": {"largest_size": (tok.REDUCED_NOTE if tier != "quick" else "all forms"), "prefix_words": "0..=%d symbolic words (no `--`)" % nmax, "typed_words": TYPED, "grammars": GRAMMARS},
+        "bounds": {"largest_size": (tok.REDUCED_NOTE if tier != "quick" else "all forms"), "prefix_words": "0..=%d symbolic words (no `--`)" % nmax, "typed_words": TYPED, "typed_words_derived": "per grammar: 1- and 2-letter prefixes of every command name and alias, each also followed by a letter that continues no name; first letter / two letters + q / the whole of long names; exact short names", "grammars": GRAMMARS},
         "jobs": len(jobs),
         "functions_encoded": sorted(fw.merge_counts(results, "fn_hits")),
         "models_used": fw.merge_counts(results, "models_used"),
